@@ -253,8 +253,22 @@ def rundir(pid):
     return d
 
 
-def _run_lines(exe, cases, workdir, tag, timeout, shards=NCPU, env=None):
-    """Run `exe casefile` over the cases, sharded across cores; returns the list of result strings."""
+def _run_lines(exe, cases, workdir, tag, timeout, shards=NCPU, env=None, resume=6):
+    """Run `exe casefile` over the cases, sharded across cores; returns the list of result strings.
+    A process that dies (stack overflow, abort) loses only the case it died on: the cases after it are run
+    again in a new process, up to `resume` times."""
+    res = _run_lines_once(exe, cases, workdir, tag, timeout, shards, env)
+    for attempt in range(resume):
+        todo = [i for i, r in enumerate(res) if r == "notrun"]
+        if not todo:
+            break
+        again = _run_lines_once(exe, [cases[i] for i in todo], workdir, "%s.r%d" % (tag, attempt), timeout, shards, env)
+        for i, r in zip(todo, again):
+            res[i] = r
+    return res
+
+
+def _run_lines_once(exe, cases, workdir, tag, timeout, shards=NCPU, env=None):
     n = len(cases)
     if n == 0:
         return []
